@@ -83,8 +83,8 @@ MUTS = [
   "        let current = self.0.load(Ordering::Acquire);\n        self.0.store(current.min(value), Ordering::Release);\n        current",
   "cursor rewind as load + store (loses concurrent claims / rewinds)"),
  ("o20-frontier-publish-no-reload", "C15", "src/scheduler/context.rs",
-  "        #[cfg(feature = \"verif\")]\n        crate::verif::point(crate::verif::Point::FrontierAfterStore, index, 0);\n        let frontier = self.frontier.load(Ordering::Acquire);\n",
-  "        #[cfg(feature = \"verif\")]\n        crate::verif::point(crate::verif::Point::FrontierAfterStore, index, 0);\n",
+  "        // and the store; using the stale value would leave the newly filled gap unadvanced.\n        let frontier = self.frontier.load(Ordering::Acquire);\n",
+  "        // and the store; using the stale value would leave the newly filled gap unadvanced.\n",
   "frontier publisher decides on the value loaded before its own store"),
  ("o21-remove-no-blocker-recheck", "C16", "src/tx_dependency.rs",
   "            if dependent.dependency == Some(txid) {\n                dependent.dependency = None;",
